@@ -92,8 +92,11 @@ def cases(ctx):
 
 
 def evidence_extra(ctx):
-    return {'bounds': '%d files (all sequences of length 1..2 over %d record kinds + %d covering sequences of length 3..4); '
-                      'every truncation offset of each; plus one file with an 8192-fit record (every offset in the thorough tier, the last eighth of the file in the quick tier)' % (len(ctx['files']), len(ctx['kinds']), len(ctx['files']) - len(ctx['kinds']) - len(ctx['kinds']) ** 2),
+    nlong = sum(1 for f_ in ctx['files'] if len(f_) >= 3)
+    ncore = len(ctx['kinds']) if ctx['tier'] != 'quick' else 9
+    return {'bounds': '%d files (all sequences of length 1..2 over %d record kinds%s + %d covering sequences of length 3..4); '
+                      'every truncation offset of each; plus one file with an 8192-fit record (every offset in the thorough tier, the last eighth of the file in the quick tier)'
+                      % (len(ctx['files']), ncore, '' if ctx['tier'] != 'quick' else '; the other %d kinds alone and paired both ways with three of them' % (len(ctx['kinds']) - ncore), nlong),
             'alphabet_digest': 'kinds=%s seed=%d' % (ctx['kinds'], ctx['seed'])}
 
 
